@@ -718,7 +718,12 @@ def strategies(clean_fraction=True):
                 good = st.builds(lambda s: {"k": "st", "st": s}, stat)
                 bad = st.one_of(raising, st.builds(lambda s, d: {"k": "pair", "st": s, "ds": d}, stat, any_ds))
             else:
-                good = st.builds(lambda s, d: {"k": "pair", "st": s, "ds": d}, stat, any_ds if not clean else st.one_of(good_ds, st.none()))
+                dsx = any_ds if not clean else st.one_of(good_ds, st.none())
+                if rtype == "N-CREATE":
+                    # documented special case: the Attribute List may carry (0000,1000) Affected SOP Instance UID
+                    with_uid = good_ds.map(lambda d: {"t": "ds", "elems": d["elems"] + [["AffectedSOPInstanceUID", "1.2.3.99"]]})
+                    dsx = st.one_of(dsx, with_uid)
+                good = st.builds(lambda s, d: {"k": "pair", "st": s, "ds": d}, stat, dsx)
                 bad = st.one_of(raising, raw, st.builds(lambda s: {"k": "st", "st": s}, stat))
             return good if clean else st.one_of(good, good, good, bad)
 
